@@ -30,12 +30,11 @@ theorem applyWrites_keyWrites (W b : Nat) (t : Table K V) (k0 : K) (h0 : Hist V)
     t1.cache = t.cache ∧
     (∀ k, t1.cdb.get? k = if k = k0 then (if h0.isOld W b then none else some h0) else t.cdb.get? k) ∧
     (∀ k, t1.db.get? k = if k = k0 then h0.latest else t.db.get? k) := by
-  intro t1
-  have e : t1 = applyWrite (applyWrite t (if h0.isOld W b then Write.delCdb k0 else Write.putCdb k0 h0))
-      (match h0.latest with | some v => Write.putDb k0 v | none => Write.delDb k0) := rfl
-  rw [e]
+  show (t.applyWrites (keyWrites W b k0 h0)).cache = t.cache ∧
+    (∀ k, (t.applyWrites (keyWrites W b k0 h0)).cdb.get? k = _) ∧
+    (∀ k, (t.applyWrites (keyWrites W b k0 h0)).db.get? k = _)
   cases ho : h0.isOld W b <;> cases hl : h0.latest <;>
-    simp [applyWrite, AMap.get?_erase, AMap.get?_insert]
+    simp [keyWrites, applyWrites, ho, hl, applyWrite, AMap.get?_erase, AMap.get?_insert]
 
 /-- Effect of the writes of a whole (duplicate-free) cache list. -/
 theorem applyWrites_flatMap (W b : Nat) (c : AMap K (Hist V)) (nd : AMap.Nodup c) (t : Table K V) :
